@@ -577,3 +577,147 @@ pub fn enc_run_request(
     s.push_str(&format!(" {} {}", cap, if do_static { 1 } else { 0 }));
     s
 }
+
+/// parse + bind only; the bound test (for the C15 suites)
+pub fn load(case: &Case, src: &str) -> Option<TestCase> {
+    let (_, parsed) = parse_line(src);
+    let p = parsed?;
+    let (_, tc) = bind_line(p, &case.sigs);
+    tc
+}
+
+/// static run of a case: parse, bind, `try_iter_static`
+pub fn run_static_case(case: &Case, src: &str) -> Option<(Vec<String>, Vec<Vec<(i64, i64)>>, bool)> {
+    let tc = load(case, src)?;
+    Some(run_static(&tc, case.cap, case.rng_seed))
+}
+
+/// two iterators over ONE bound test, each with its own driver (same plan), advanced in the order
+/// given by `schedule` (false = first, true = second); returns the two line streams (calls + items)
+pub fn run_interleaved(case: &Case, src: &str, schedule: &[bool]) -> Option<(Vec<String>, Vec<String>)> {
+    let tc = load(case, src)?;
+    verif_hooks::set_seed(Some(case.rng_seed));
+    let la = Rc::new(RefCell::new(Vec::<String>::new()));
+    let lb = Rc::new(RefCell::new(Vec::<String>::new()));
+    let mut da = DrvOwn(Script::new(case, la.clone()));
+    let mut db = DrvOwn(Script::new(case, lb.clone()));
+    let mut da2 = DrvDefault(Script::new(case, la.clone()));
+    let mut db2 = DrvDefault(Script::new(case, lb.clone()));
+    // the iterators borrow the drivers; pick the driver kind once
+    fn go<'c, D: TestDriver<Error = DrvError>>(
+        tc: &TestCase,
+        a: &mut D,
+        b: &mut D,
+        la: &Rc<RefCell<Vec<String>>>,
+        lb: &Rc<RefCell<Vec<String>>>,
+        schedule: &[bool],
+        cap: usize,
+    ) {
+        struct Own<'b, D>(&'b mut D);
+        let (oa, ob) = (Own(a), Own(b));
+        let ia = catch_unwind(AssertUnwindSafe(move || {
+            let Own(d) = oa;
+            tc.try_iter(d)
+        }));
+        let ib = catch_unwind(AssertUnwindSafe(move || {
+            let Own(d) = ob;
+            tc.try_iter(d)
+        }));
+        let (mut ia, mut ib) = match (ia, ib) {
+            (Ok(Ok(x)), Ok(Ok(y))) => {
+                la.borrow_mut().push("ctor ok".into());
+                lb.borrow_mut().push("ctor ok".into());
+                (x, y)
+            }
+            _ => {
+                la.borrow_mut().push("ctor not-ok".into());
+                lb.borrow_mut().push("ctor not-ok".into());
+                return;
+            }
+        };
+        let (mut ka, mut kb, mut done_a, mut done_b) = (0usize, 0usize, false, false);
+        let mut step = 0usize;
+        while !(done_a && done_b) {
+            let second = schedule.get(step % schedule.len().max(1)).copied().unwrap_or(false);
+            step += 1;
+            let (it, lines, k, done): (&mut dyn Iterator<Item = _>, _, &mut usize, &mut bool) =
+                if (second && !done_b) || done_a { (&mut ib, lb, &mut kb, &mut done_b) } else { (&mut ia, la, &mut ka, &mut done_a) };
+            if *k >= cap {
+                lines.borrow_mut().push(format!("item {k} cap"));
+                *done = true;
+                continue;
+            }
+            match catch_unwind(AssertUnwindSafe(|| it.next())) {
+                Err(_) => {
+                    lines.borrow_mut().push(format!("item {k} panic {}", take_panic()));
+                    *done = true;
+                }
+                Ok(None) => {
+                    lines.borrow_mut().push(format!("item {k} none"));
+                    *done = true;
+                }
+                Ok(Some(Err(IterationError::Driver(e)))) => {
+                    lines.borrow_mut().push(format!("item {k} err driver:{}", e.0));
+                    *done = true;
+                }
+                Ok(Some(Err(IterationError::Runtime(_)))) => {
+                    lines.borrow_mut().push(format!("item {k} err runtime"));
+                    *done = true;
+                }
+                Ok(Some(Ok(row))) => {
+                    lines.borrow_mut().push(format!(
+                        "item {k} row line={} in={} out={}",
+                        row.line,
+                        show_inputs(&row.inputs),
+                        show_outputs(&row)
+                    ));
+                }
+            }
+            *k += 1;
+        }
+    }
+    if case.own_wo {
+        go(&tc, &mut da, &mut db, &la, &lb, schedule, case.cap);
+    } else {
+        go(&tc, &mut da2, &mut db2, &la, &lb, schedule, case.cap);
+    }
+    let _ = verif_hooks::take_rng_log();
+    let a = la.borrow().clone();
+    let b = lb.borrow().clone();
+    Some((a, b))
+}
+
+/// parse the same text `n` times: all results must be equal, with signals and entries in the same order
+pub fn repeated_parse_problem(case: &Case, src: &str, n: usize) -> Option<String> {
+    let first = catch_unwind(|| src.parse::<ParsedTestCase>()).ok()?;
+    let Ok(first) = first else { return None };
+    let d0 = first.verif_dump();
+    let sigs: Vec<Signal> = case.sigs.iter().map(to_signal).collect();
+    let t0 = first.clone().with_signals(sigs.clone()).ok();
+    for k in 1..n {
+        let p = match src.parse::<ParsedTestCase>() {
+            Ok(p) => p,
+            Err(_) => return Some(format!("parse {k} of the same text failed although the first one succeeded")),
+        };
+        if p != first {
+            return Some(format!("parse {k} of the same text is not equal (==) to the first one"));
+        }
+        if p.verif_dump() != d0 {
+            return Some(format!("parse {k} of the same text differs in its recorded reads / declarations / order:\n{}\n{}", p.verif_dump(), d0));
+        }
+        let t = p.with_signals(sigs.clone()).ok();
+        match (&t0, &t) {
+            (Some(a), Some(b)) => {
+                if a != b {
+                    return Some(format!("binding parse {k} gives a different TestCase (==)"));
+                }
+                if dump_signals(&a.signals) != dump_signals(&b.signals) {
+                    return Some(format!("binding parse {k} gives the signals in another order: {} vs {}", dump_signals(&b.signals), dump_signals(&a.signals)));
+                }
+            }
+            (None, None) => {}
+            _ => return Some(format!("binding parse {k} succeeds/fails differently from the first")),
+        }
+    }
+    None
+}
